@@ -142,6 +142,13 @@ bool linepart::array::apply(const transform &tr, int dim, span<const double> src
 			}
 			// partial segment
 			if (pt.raw < old.raw) {
+				// new part ends on last visible point of old part
+				if (pt.usr == old.usr && old._trim) {
+					if (old._trim > pt._trim) {
+						pt._trim = old._trim;
+					}
+					old._trim = 0;
+				}
 				old.raw -= pt.raw;
 				old.usr -= pt.raw;
 				old._cut = 0;
